@@ -54,6 +54,18 @@ def gen(rng, tier):
             c["upper"] = None if r < 0.6 else str(hi + rng.randint(0, 3))
             if rng.random() < 0.05:
                 c["lower"], c["upper"] = str(hi + 1), str(lo - 1)
+            c["knots"] = None
+            if rng.random() < 0.3:
+                # explicit interior knots: any order, inside the bounds (sometimes not), df usually omitted
+                span = hi - lo
+                k = rng.randint(1, 4)
+                ks = [lo + span * Fraction(rng.randint(1, 15), 16) for _ in range(k)]
+                if rng.random() < 0.5:
+                    ks = sorted(ks, reverse=rng.random() < 0.5)
+                if rng.random() < 0.1:
+                    ks[0] = hi + 1
+                c["knots"] = [str(x) for x in ks]
+                c["df"] = None if rng.random() < 0.8 else c["df"]
             if rng.random() < 0.3:
                 # later data inside the boundary knots, the boundaries included
                 c["ys"] = [str(lo), str(hi)] + [str(lo + (hi - lo) * Fraction(rng.randint(0, 16), 16)) for _ in range(4)]
@@ -114,7 +126,7 @@ def model_cmd(c):
         s = float(np.std(np.array([float(Fraction(v)) for v in c["xs"]])))
         return core.sshow(["scale", c["xs"], _f2q(s), c["ys"]])
     if t == "bs":
-        return core.sshow(["bs", c["xs"], _opt(c["df"]), "none", str(c["degree"]),
+        return core.sshow(["bs", c["xs"], _opt(c["df"]), "none" if not c.get("knots") else list(c["knots"]), str(c["degree"]),
                            "true" if c["intercept"] else "false", _opt(c["lower"]), _opt(c["upper"]), c["ys"]])
     norms = _poly_norms(c["xs"], c["degree"])
     if c["raw"] or norms is None:
@@ -139,6 +151,7 @@ def _call(c):
     if t == "bs":
         o = BSpline()
         kw = dict(df=c["df"], degree=c["degree"], intercept=c["intercept"],
+                  knots=None if not c.get("knots") else [float(Fraction(v)) for v in c["knots"]],
                   lower_bound=None if c["lower"] is None else float(Fraction(c["lower"])),
                   upper_bound=None if c["upper"] is None else float(Fraction(c["upper"])))
         return o, o(xs, **kw), o(ys, **kw)
@@ -251,16 +264,30 @@ def oracle(c):
             return f"{c}: scale on later data is not (x - mean)/sd of the training data"
     elif t == "bs":
         deg, ic, df = c["degree"], c["intercept"], c["df"]
-        if deg < 0 or df is None:
+        kn = None if not c.get("knots") else [float(Fraction(v)) for v in c["knots"]]
+        if deg < 0 or (df is None and kn is None):
             return f"{c}: invalid bs parameters were accepted"
-        if df - (deg + 1) + (0 if ic else 1) < 0:
+        if df is not None and df - (deg + 1) + (0 if ic else 1) < 0:
             return f"{c}: df too small for the degree but accepted"
+        if df is not None and kn is not None and len(kn) != df - (deg + 1) + (0 if ic else 1):
+            return f"{c}: df and the number of knots disagree but were accepted"
         lo = xs.min() if c["lower"] is None else float(Fraction(c["lower"]))
         hi = xs.max() if c["upper"] is None else float(Fraction(c["upper"]))
         if lo > hi:
             return f"{c}: lower_bound > upper_bound accepted"
-        if A.shape != (n, df):
-            return f"{c}: bs returns {A.shape[1]} columns for df={df}"
+        ncols = df if df is not None else len(kn) + deg + (1 if ic else 0)
+        if A.shape != (n, ncols):
+            return f"{c}: bs returns {A.shape[1]} columns, expected {ncols}"
+        if kn is not None and (min(kn) < lo or max(kn) > hi):
+            return f"{c}: knots outside the boundary knots were accepted"
+        if kn is not None:
+            # the order in which the knots are listed cannot matter
+            from formulae.transforms import BSpline
+            ref = BSpline()(xs, df=df, knots=sorted(kn), degree=deg, intercept=ic,
+                            lower_bound=None if c["lower"] is None else float(Fraction(c["lower"])),
+                            upper_bound=None if c["upper"] is None else float(Fraction(c["upper"])))
+            if not np.allclose(A, ref, rtol=1e-9, atol=1e-9):
+                return f"{c}: bs with knots {kn} differs from bs with the same knots sorted"
         knots = np.asarray(o._knots)
         inner = knots[deg + 1: len(knots) - deg - 1]
         tag = "[class:bs_knot_on_boundary] " if (len(inner) and (np.any(inner >= hi) or np.any(inner <= lo))) or lo == hi else ""
